@@ -6,6 +6,7 @@ import (
 	"encoding/json"
 	"errors"
 	"fmt"
+	"runtime/debug"
 	"sort"
 	"strings"
 	"time"
@@ -105,7 +106,7 @@ func (n *Node) Exec(ctx context.Context, req string, opts ...client.RequestOptio
 	go func() {
 		defer func() {
 			if r := recover(); r != nil {
-				ch <- out{pan: r}
+				ch <- out{pan: fmt.Sprintf("%v\n%s", r, trimStack(debug.Stack()))}
 			}
 		}()
 		ch <- out{res: n.DB.ExecRequest(ctx, req, opts...)}
@@ -128,6 +129,20 @@ func (n *Node) Exec(ctx context.Context, req string, opts ...client.RequestOptio
 		return nil, fmt.Errorf("gql: %s", strings.Join(msgs, "; "))
 	}
 	return Normalize(res.GQL.Data)
+}
+
+func trimStack(b []byte) string {
+	lines := strings.Split(string(b), "\n")
+	var keep []string
+	for _, l := range lines {
+		if strings.Contains(l, "/repo/") || strings.Contains(l, "defradb/internal") || strings.Contains(l, "defradb/client") {
+			keep = append(keep, strings.TrimSpace(l))
+		}
+		if len(keep) > 16 {
+			break
+		}
+	}
+	return strings.Join(keep, " <- ")
 }
 
 // Normalize converts a GQL data value into plain JSON-shaped Go values.
